@@ -2,7 +2,8 @@
 cl/compile.go preloadGopFile typInit / preloadFile classRecv; cl/expr.go compileIdent member lookup).
 
 A  Props/C11.v : C11_class_fields_exact(_nodup), C11_class_fields_nodup, C11_class_methods_exact,
-   C11_class_plain_is_method, C11_class_funcs_count, C11_class_equiv
+   C11_class_plain_is_method, C11_class_funcs_count, C11_class_equiv, C11_static_scope_is_lexical,
+   C11_desugar_idempotent
 B  K-diff on generated classes (several per package, one go build, one run):
    (type view)  fields (order, names, embedded, type, tag) and functions/receivers of the Go type emitted for
                 the class file  ==  class_fields / class_funcs of the model
@@ -423,14 +424,14 @@ func main() {
             for k, v in c.hist.items():
                 hist[k] = hist.get(k, 0) + v
             outs = {}
-            for tag, key in (("C", "RUNC"), ("X", "RUNX")):
+            for tag, key in (("C", "RUNC"), ("X", "RUNX"), ("C", "RUND")):
                 o = obs.get((tag, c.name))
                 if o is None:
                     s = "<no output>"
                 else:
                     s = fmt_outcome(o["ret"], o["P"], ["%s=%s" % p for p in zip(c.fields, o["fld"])], ["%s=%s" % p for p in zip(GLOBALS, o["glb"])])
                 outs[tag] = s
-                bc.append("%s %s" % (c.name, "class form" if tag == "C" else "explicit form"))
+                bc.append("%s %s" % (c.name, {"RUNC": "class form", "RUNX": "explicit form", "RUND": "class form ~ environment-based evaluator"}[key]))
                 bi.append(s)
                 bm.append(m[key])
                 nrun += 1
@@ -442,8 +443,8 @@ func main() {
     ctx.diff_lines("program output ~ run_class / run_explicit", bc, "\n".join(bi), "\n".join(bm))
 
     ctx.cover(evaluations=nrun + len(tc), distinct_nontrivial=len(set(c.model_line() for c in classes)),
-              samples=[{"class": classes[i].model_line()[:700], "observed_class_form": bi[2 * i] if 2 * i < len(bi) else None,
-                        "model": bm[2 * i] if 2 * i < len(bm) else None} for i in (0, len(classes) // 2)],
+              samples=[{"class": classes[i].model_line()[:700], "observed_class_form": bi[3 * i] if 3 * i < len(bi) else None,
+                        "model": bm[3 * i] if 3 * i < len(bm) else None} for i in (0, len(classes) // 2)],
               rule="%d seeded classes (1-4 int fields from a 6-name pool that is ALSO declared at package level, 1-4 one-parameter "
                    "methods with nested if/else, := shadowing fields/parameters, bare and this.-qualified field access, bare and "
                    "this.-qualified calls of later methods; var block with grouped names, tags, embedded T, *T, *pkg.T, pkg.T; optional "
